@@ -409,11 +409,38 @@ def _dispatch(ctx, prog, enum_b, dec):
         bodies = e + [c for x in e for c in util.closure_bodies(prog, x.path)]
         found = None
         kind = None
+        mode_kind = None
+        mode_found = None
         for x in bodies:
             for bi, t in x.calls():
                 n = cname(callee_name(t))
                 if n in fw_names:
                     callee = prog.bodies.get(t['callee'].get('resolved'))
+                    for pos, a in enumerate(t['args']):
+                        if callee is not None and 'CheckMode' in callee.local_ty(pos + 1):
+                            # the mode override handed down: None, Some(FirstCollisionOnly), or Some(<table>.mode)
+                            mt = strip(x.op_term(a, (bi, None)))
+                            mode_found = show(mt, maxdepth=5)
+                            if isinstance(mt, tuple) and mt[0] == 'const' and 'FirstCollisionOnly' in show(mt, maxdepth=2):
+                                mode_kind = 'first'          # a promoted constant &Some(FirstCollisionOnly)
+                            elif isinstance(mt, tuple) and mt[0] == 'agg' and 'None' in str(mt[1]):
+                                mode_kind = 'none'
+                            elif isinstance(mt, tuple) and mt[0] == 'agg' and 'Some' in str(mt[1]):
+                                inner = strip(mt[2])
+                                if 'FirstCollisionOnly' in show(inner, maxdepth=3):
+                                    mode_kind = 'first'
+                                elif isinstance(inner, tuple) and inner[0] == 'fld' and inner[2] == 'mode':
+                                    tb = strip(inner[1])
+                                    if util.param_index(tb) is not None and x.kind != 'Closure':
+                                        mode_kind = 'mode-of-param'
+                                    elif isinstance(tb, tuple) and tb[0] == 'fld' and tb[2] == 'safety':
+                                        mode_kind = 'mode-of-self.safety'
+                                    else:
+                                        mode_kind = 'other'
+                                else:
+                                    mode_kind = 'other'
+                            else:
+                                mode_kind = 'other'
                     for pos, a in enumerate(t['args']):
                         if callee is not None and 'SafetyDistances' not in callee.local_ty(pos + 1):
                             continue
@@ -428,6 +455,15 @@ def _dispatch(ctx, prog, enum_b, dec):
         ok = kind == want
         ctx.check(ok, 'R10.5', 'entry/' + name, e[0].where(0) if e else '', e[0].path if e else name,
                   'entry point must evaluate with %s' % ('the body\'s own table' if want == 'self.safety' else 'the table given by the caller'), found=found)
+        # the mode that governs the run must be the mode of the table in use: no override (or that table's own mode) for the
+        # reporting entry points, first-collision for the boolean ones
+        allowed = {'collision_details': ('none', 'mode-of-self.safety'), 'near': ('none', 'mode-of-param'),
+                   'collides': ('first',), 'non_colliding_offsets': ('first',)}[name]
+        ctx.check(mode_kind in allowed, 'R10.6', 'entry/%s/mode' % name, e[0].where(0) if e else '', e[0].path if e else name,
+                  'the check mode of this entry point must be %s' % (' or '.join({'none': 'left to the table in use', 'first': 'forced to first-collision',
+                                                                              'mode-of-param': 'the mode of the table given by the caller',
+                                                                              'mode-of-self.safety': 'the mode of the body\'s own table'}[a2] for a2 in allowed)),
+                  found=mode_found, detail=str(mode_kind))
     # detect_collisions forwards its safety parameter
     for x in forwarders:
         ctx.fn(x)
